@@ -408,3 +408,138 @@ def rule_loops_not_cut_short(ctx, rule_id):
         run.ok(rule_id, key(m.relpath, "<module>", "loops-examined"))
     run.extra["loops_examined"] = n
     return n
+
+
+class _UndefRD(ReachingDefs):
+    """Reaching definitions with an extra pseudo-definition ('undef', name) of every local at the function entry: where it
+    reaches a read of the name, some path arrives there without having bound it."""
+
+    def __init__(self, cfg, params, locs):
+        from ..cfg import defs_at
+        self.cfg = cfg
+        self.defs = {}
+        for n in cfg.nodes:
+            self.defs[n] = defs_at(n)
+        self.defs[cfg.entry] = {p_: ("param", p_) for p_ in params}
+        for l_ in locs:
+            self.defs[cfg.entry][l_] = ("undef", l_)
+        self.IN = {n: set() for n in cfg.nodes}
+        self.OUT = {n: set() for n in cfg.nodes}
+        work = list(cfg.nodes)
+        while work:
+            n = work.pop(0)
+            inn = set()
+            for p_ in n.pred:
+                inn |= self.OUT[p_]
+            self.IN[n] = inn
+            d = self.defs[n]
+            out = {(nm, src) for (nm, src) in inn if nm not in d} | {(nm, n.id) for nm in d}
+            if out != self.OUT[n]:
+                self.OUT[n] = out
+                for s_, _ in n.succ:
+                    if s_ not in work:
+                        work.append(s_)
+
+
+def possibly_undefined_sites(fi):
+    """[(name, node)] reads of a local variable that some path reaches without a binding (UnboundLocalError at run time).
+    Path-insensitive: a binding made in a loop body does not count for the code after the loop (the loop may run zero times),
+    a binding made under `if c:` does not count for a later `if c:`."""
+    from ..cfg import own_exprs
+    from ..loader import walk_no_nested
+    g = cfg_of(fi)
+    params = list(fi.all_param_names())
+    stored = set()
+    for x in body_walk(fi.node):
+        if isinstance(x, ast.Name) and isinstance(x.ctx, (ast.Store, ast.Del)):
+            stored.add(x.id)
+        elif isinstance(x, ast.ExceptHandler) and x.name:
+            stored.add(x.name)
+        elif isinstance(x, (ast.Import, ast.ImportFrom)):
+            for al in x.names:
+                stored.add((al.asname or al.name).split(".")[0])
+        elif isinstance(x, (ast.FunctionDef, ast.ClassDef)) and x is not fi.node:
+            stored.add(x.name)
+    for x in body_walk(fi.node):
+        if isinstance(x, (ast.Global, ast.Nonlocal)):
+            for nme in x.names:
+                stored.discard(nme)
+    locs = sorted(n_ for n_ in stored if n_ not in params)
+    if not locs:
+        return []
+    rd = _UndefRD(g, params, locs)
+    out = []
+    for node in g.nodes:
+        if node.ast is None:
+            continue
+        here = rd.defs.get(node, {})
+        for e in own_exprs(node):
+            for x in walk_no_nested(e):
+                if isinstance(x, ast.Name) and isinstance(x.ctx, ast.Load) and x.id in locs:
+                    # comprehension variables are bound in their own scope
+                    par = getattr(x, "parent", None)
+                    comp = False
+                    while par is not None and par is not node.ast:
+                        if isinstance(par, (ast.ListComp, ast.SetComp, ast.DictComp, ast.GeneratorExp, ast.Lambda)):
+                            tg = set()
+                            if not isinstance(par, ast.Lambda):
+                                for gen in par.generators:
+                                    tg |= {n_.id for n_ in ast.walk(gen.target) if isinstance(n_, ast.Name)}
+                            else:
+                                tg = {a_.arg for a_ in par.args.args}
+                            if x.id in tg:
+                                comp = True
+                        par = getattr(par, "parent", None)
+                    if comp:
+                        continue
+                    if any(nm == x.id and src == g.entry.id for nm, src in rd.IN[node]) and isinstance(rd.defs[g.entry].get(x.id), tuple) \
+                            and rd.defs[g.entry][x.id][0] == "undef":
+                        out.append((x.id, x))
+    return out
+
+
+# reads that the path-insensitive analysis cannot clear, confirmed by reading (one reason each): the binding and the read sit
+# under the SAME condition, which nothing in between changes
+POSSIBLY_UNDEFINED_OK = {
+    ("stix2.canonicalization.Canonicalize::_make_iterencode._iterencode", "markerid"): "bound and read under `markers is not None`",
+    ("stix2.canonicalization.Canonicalize::_make_iterencode._iterencode_dict", "markerid"): "bound and read under `markers is not None`",
+    ("stix2.canonicalization.Canonicalize::_make_iterencode._iterencode_list", "markerid"): "bound and read under `markers is not None`",
+    ("stix2.equivalence.object::object_similarity", "contributing_score"): "bound in every branch that sets the flag under which it is read",
+    ("stix2.equivalence.pattern.transform.specials::ipv4_addr", "prefix_size"): "bound under `is_cidr`, read under `not is_cidr or ...` (short-circuit)",
+    ("stix2.equivalence.pattern.transform.specials::ipv6_addr", "prefix_size"): "bound under `is_cidr`, read under `not is_cidr or ...` (short-circuit)",
+}
+
+
+def rule_definite_assignment(ctx, rule_id):
+    """Every read of a local variable is reached by a binding on every path (no UnboundLocalError): decided with reaching
+    definitions over the statement CFG, an 'unbound' pseudo-definition flowing from the function entry.  The six reads of
+    today's tree that only a path-sensitive argument clears are frozen with their reason; any other is reported -- e.g. the
+    result variable of a search loop that is no longer initialised before the loop (an empty sequence then raises
+    UnboundLocalError, an 'internal failure' that must never escape)."""
+    from .hidden_state import anchor_modules
+    run = ctx.run
+    prog = ctx.prog
+    prop = rule_id.split(".")[0]
+    mods = anchor_modules(ctx, prop)
+    if not mods:
+        raise AnalysisError("definite-assignment: no anchored module found for %s" % prop)
+    n = 0
+    for m in mods:
+        for fi in sorted((f for f in prog.functions.values() if f.module is m), key=lambda f: f.id):
+            n += 1
+            seen = set()
+            for name, x in possibly_undefined_sites(fi):
+                if name in seen:
+                    continue
+                seen.add(name)
+                c = key(fi.module.relpath, fi.qualname, "bound-on-every-path:%s" % name)
+                why = POSSIBLY_UNDEFINED_OK.get((fi.id, name))
+                if why:
+                    run.ok(rule_id, c, why)
+                    continue
+                run.violation(rule_id, c, "`%s` is read although a path from the function entry reaches the read without binding it "
+                              "(UnboundLocalError): typically a result variable bound only inside a loop or a branch" % name,
+                              file=fi.module.relpath, line=x.lineno, function=fi.qualname,
+                              expected="a binding before the loop / in every branch", found=short(getattr(x, "parent", x), 80))
+        run.ok(rule_id, key(m.relpath, "<module>", "functions-examined-for-unbound-reads"))
+    return n
